@@ -18,12 +18,15 @@ func init() {
 			ID: "C33", Title: "IS-IS survives any sequence of interface state changes", Level: "other",
 			Technique:  "typestate/pairing rules on the start/stop pair of the interface object (typed AST + go/cfg): what stop consumes start re-creates, what start sets stop clears, what start creates conditionally stop uses conditionally; lock rules of C25 over the IS-IS and device packages plus a wait-under-lock rule",
 			DesignRef:  "DESIGN.md §4 C33",
-			Decided:    "(1) every channel that the stop path closes and every ticker that the stopped routines stop is re-created by the start path before it starts the routines; (2) the running flag that makes start refuse to run twice is cleared by stop on every path; (3) a resource that start creates only for active interfaces is used by stop only behind a test that it exists; (4) over protocols/isis/server and protocols/device: no lock leaked on a return path, no lock-order cycle, no re-acquisition of a held lock on the same object, no unbuffered send under a lock the receiver needs, and no WaitGroup.Wait under a lock that a goroutine counted by that WaitGroup takes.",
+			Decided:    "(1) every channel that the stop path closes and every ticker that the stopped routines stop is re-created by the start path before it starts the routines; (2) the running flag that makes start refuse to run twice is cleared by stop on every path; (3) a resource that start creates only for active interfaces is used by stop only behind a test that it exists; (3b) the two fields of the interface object that depend on the link history (the ethernet handle: nil while the link is down and on passive interfaces; the device status: nil until the first device update) are dereferenced only behind a nil test, inside the routines that live between start and stop, behind a test at every call site, or at a reviewed exemption — the periodic LSDB work runs for every interface whatever its link state; (4) over protocols/isis/server and protocols/device: no lock leaked on a return path, no lock-order cycle, no re-acquisition of a held lock on the same object, no unbuffered send under a lock the receiver needs, and no WaitGroup.Wait under a lock that a goroutine counted by that WaitGroup takes.",
 			NotDecided: "that hellos are in fact sent and adjacencies form again (behaviour of the routines once restarted); link event sequences are not enumerated — the rules hold for every sequence because they are per-transition invariants of the start/stop pair.",
 			TrustedBase: stdTrusted,
 		},
 		Run: runC33,
 		Controls: []Control{
+			{Name: "psnp-tick-on-down-interface", File: "protocols/isis/server/lsdb.go", Old: "\t\teth := ifa.ethernetInterface\n\t\tif eth == nil {\n\t\t\tcontinue\n\t\t}\n\n\t\tlspdus := l._getLSPWithSSNSet(ifa)\n\t\tfor _, psnp := range packet.NewPSNPs(srcID, lspdus, eth.GetMTU()) {", New: "\t\tlspdus := l._getLSPWithSSNSet(ifa)\n\t\tfor _, psnp := range packet.NewPSNPs(srcID, lspdus, ifa.ethernetInterface.GetMTU()) {", Expect: "link-state-handle-guarded"},
+			{Name: "lsp-origination-before-first-device-update", File: "protocols/isis/server/net_ifa_manager.go", Old: "\t\tif ifa.devStatus == nil {\n\t\t\tcontinue\n\t\t}\n", New: "", Expect: "link-state-handle-guarded"},
+			{Name: "refactor-handle-tested-in-place", Silent: true, File: "protocols/isis/server/lsdb.go", Old: "\t\teth := ifa.ethernetInterface\n\t\tif eth == nil {\n\t\t\tcontinue\n\t\t}\n\n\t\tlspdus := l._getLSPWithSSNSet(ifa)\n\t\tfor _, psnp := range packet.NewPSNPs(srcID, lspdus, eth.GetMTU()) {", New: "\t\tif ifa.ethernetInterface != nil {\n\t\t\tfor _, psnp := range packet.NewPSNPs(srcID, l._getLSPWithSSNSet(ifa), ifa.ethernetInterface.GetMTU()) {\n\t\t\t\tifa.sendPSNP(&psnp, l.level())\n\t\t\t}\n\t\t}\n\t\tlspdus := []*packet.LSPEntry{}\n\t\tfor _, psnp := range packet.NewPSNPs(srcID, lspdus, 0) {"},
 			{Name: "refactor-flag-cleared-before-wait", Silent: true, File: "protocols/isis/server/net_ifa.go", Old: "\tnifa.srv.updateL2LSP()\n\tnifa.wg.Wait()\n\tnifa.ethernetInterface = nil\n\tnifa.initialized = false\n", New: "\tnifa.initialized = false\n\tnifa.srv.updateL2LSP()\n\tnifa.wg.Wait()\n\tnifa.ethernetInterface = nil\n"},
 			{Name: "status-not-recorded-on-down", File: "protocols/isis/server/net_ifa.go", Old: "\tnifa.devStatus = dev\n\tif oldState != device.IfOperUp && dev.GetOperState() == device.IfOperUp {", New: "\tif oldState != device.IfOperUp && dev.GetOperState() == device.IfOperUp {\n\t\tnifa.devStatus = dev", Expect: "handler-records-status"},
 			{Name: "done-channel-not-recreated", File: "protocols/isis/server/net_ifa.go", Old: "\t\tnifa.done = make(chan struct{})\n", New: "", Expect: "restart-recreates-consumed"},
@@ -42,6 +45,7 @@ func c33Scope(f *core.Fn) bool {
 }
 
 func runC33(c *core.Ctx) {
+	linkStateHandles(c)
 	p := c.P
 	start := c.MustFunc(isisSrv + ".(*netIfa)._start")
 	stop := c.MustFunc(isisSrv + ".(*netIfa)._stop")
